@@ -108,7 +108,7 @@ func main() {
 	var batches [][]item
 	var rest []item
 	for _, it := range items {
-		if bytes.Contains(it.raw, []byte(`"asis":"panic"`)) {
+		if bytes.Contains(it.raw, []byte(`"asis":"panic"`)) || bytes.Contains(it.raw, []byte(`"expect_panic":true`)) {
 			batches = append(batches, []item{it})
 		} else {
 			rest = append(rest, it)
@@ -140,12 +140,19 @@ func main() {
 				json.Unmarshal(it.raw, &gc)
 				r := &childRes{N: it.n}
 				switch {
+				case out.Panic && !libraryPanic(out.Stderr):
+					r.Status, r.Detail = "inconclusive", "the harness itself panicked: "+vfgo.PanicHead(out.Stderr)
 				case out.Panic:
 					r.Status, r.Key = "violation", strings.ToLower(gc.Prop)+":panic:"+panicSite(out.Stderr)
 					r.Detail = "the process running the channel panicked: " + vfgo.PanicHead(out.Stderr)
 					// a panic the as-is configuration predicts is named by the input that triggers it
+					var gr GRow
+					if json.Unmarshal(it.raw, &gr) == nil && gr.Kind == "garbage" {
+						r.Class = garbageClass(&gr)
+						r.Key = fmt.Sprintf("c13:%s-%s-%s-%s:panic", gr.Class, gr.Side, gr.Phase, gr.Mode)
+					}
 					var b Beh
-					if json.Unmarshal(it.raw, &b) == nil {
+					if gr.Kind != "garbage" && json.Unmarshal(it.raw, &b) == nil {
 						r.Class = behClass(&b)
 						for _, st := range b.Steps {
 							if st.Asis == "panic" && st.Expect != "panic" && strings.Contains(out.Stderr, "verifyAndDecrypt") {
@@ -213,6 +220,30 @@ func tail(s string, n int) string {
 	return s
 }
 
+// libraryPanic: the panicking goroutine runs library code all the way down, or was entered
+// from the harness's receive loop (openRig) -- and not from other harness code.
+func libraryPanic(stderr string) bool {
+	i := strings.Index(stderr, "goroutine ")
+	if i < 0 {
+		return false
+	}
+	block := stderr[i:]
+	if j := strings.Index(block, "\n\n"); j > 0 {
+		block = block[:j]
+	}
+	sawLib := false
+	for _, line := range strings.Split(block, "\n") {
+		line = strings.TrimSpace(line)
+		if strings.HasPrefix(line, "github.com/gopcua/opcua/") {
+			sawLib = true
+		}
+		if strings.HasPrefix(line, "main.") {
+			return sawLib && strings.HasPrefix(line, "main.openRig")
+		}
+	}
+	return sawLib
+}
+
 // panicSite names the first frame of the library in a panic trace (for the key).
 func panicSite(stderr string) string {
 	for _, line := range strings.Split(stderr, "\n") {
@@ -271,6 +302,19 @@ func child() {
 }
 
 func dispatch(l []byte, gc genericCase) childRes {
+	if gc.Prop == "C13" && bytes.Contains(l, []byte(`"kind":"garbage"`)) {
+		var row GRow
+		if err := json.Unmarshal(l, &row); err != nil {
+			return childRes{N: gc.N, Status: "inconclusive", Detail: "bad row: " + err.Error()}
+		}
+		var rr runResult
+		for try := 0; try < 3; try++ {
+			if rr = runGarbage(&row); rr.status != "inconclusive" {
+				break
+			}
+		}
+		return childRes{N: row.N, Status: rr.status, Key: rr.key, Detail: rr.detail, Class: garbageClass(&row), Obs: rr.obs}
+	}
 	switch gc.Prop {
 	case "C10", "C09", "C12", "C13":
 		var b Beh
@@ -283,7 +327,14 @@ func dispatch(l []byte, gc genericCase) childRes {
 	return childRes{N: gc.N, Status: "inconclusive", Detail: "unknown property " + gc.Prop}
 }
 
+func garbageClass(r *GRow) string {
+	return fmt.Sprintf("C13/garbage/%s/%s/%s/%s", r.Side, r.Mode, r.Phase, r.Class)
+}
+
 func behClass(b *Beh) string {
+	if b.Kind == "flood" {
+		return fmt.Sprintf("C13/flood/%s/%s/%dx%d", b.Side, b.Mode, len(b.Plan), b.Plan[0].Cut)
+	}
 	var mv []string
 	for _, st := range b.Steps {
 		if st.In != "pass" {
@@ -298,6 +349,8 @@ func runBeh(b *Beh) childRes {
 	var rr runResult
 	for try := 0; try < 3; try++ {
 		switch {
+		case b.Kind == "flood":
+			rr = runFlood(b)
 		case b.Sender == "ref":
 			rr = runBehRef(b)
 		default:
